@@ -58,6 +58,11 @@ def rule_select(ctx, F, rule="R1"):
                    what="same-key-restarts")
             continue
         n_restart += 1
+        # fail closed: "re-assigning the current key does not restart anything" - a row that restarts must have found that
+        # no key was applied yet or that the applied key differs from the current one
+        ctx.ob(rule, lab + "/restart-only-for-a-new-key", has_prev == 0 or (has_prev == 1 and same == 0),
+               "this row (re)starts the animation without having compared the key with the one applied last "
+               "(previous key present: %s, equal: %s)" % (has_prev, same), site, trace_of(p), what="same-key-not-excluded")
         prev_fin = eng.read_loc(p, scell, (("field", R["prev"]),))
         ctx.ob(rule, lab + "/remember-key", prev_fin == pse.mk_some(f0("key")),
                "the selector must remember the key it has applied (previous_key := Some(key)); it is %s" % show(prev_fin)[:160],
